@@ -1,5 +1,7 @@
 SPECIFICATION Spec
 CONSTANTS ResetOnError = TRUE
+ ZeroTimerGuarded = TRUE
+ KindSet = "all"
  NN = 3
  Mode = "plain"
 INVARIANT Released
